@@ -211,7 +211,7 @@ def main(a):
             "samples": samples,
             "exhaustive": False,
             "sweep": {"plans": nsweep, "executed": sw["executed"], "exhaustive": sw["executed"] == nsweep,
-                      "what": "every declared C function x 11 MSSM state recipes x canonical arguments (all valid indices); THDM: 2 bases x 12 Yukawa type values x 4 configs x 3 SM variants x 4 base points x all THDM functions"},
+                      "what": "every declared C function x 11 MSSM state recipes x canonical arguments (all valid indices); THDM: 2 bases x 12 Yukawa type values x 4 configs x 3 SM variants x 4 base points x all THDM functions; every field / array element of gm2calc_SM, gm2calc_THDM_mass_basis and gm2calc_THDM_gauge_basis x 18 special values (zeros, denormal, tiny, huge, non-finite, negative) and zero-initialised structs, each followed by construction and all THDM functions"},
             "random_histories": rnd["executed"], "calls": counters.get("calls", 0), "ops": counters.get("ops", 0),
             "simulated_time": {"unit": "C-API calls (logical clock of this engine)", "total": counters.get("calls", 0)},
             "runs_per_hour": int(nruns / max(wall - t_build, 1e-9) * 3600),
